@@ -233,6 +233,16 @@ func (b *xbuilder) expr(v ssa.Value, d int, onpath map[ssa.Value]bool) *X {
 	case *ssa.Builtin:
 		return &X{Op: "func", Name: "builtin " + v.Name(), V: v}
 	case *ssa.Alloc:
+		// A cell written exactly once as a whole (spilled parameter or
+		// single-assignment local whose address is only used for field
+		// projections) stands for the value stored in it.
+		if v.Comment != "complit" {
+			if stores, esc := b.storesTo(v, map[ssa.Value]bool{}); !esc && len(stores) == 1 && !fieldWritten(v) {
+				y := *sub(stores[0].Val)
+				y.Cell = v
+				return &y
+			}
+		}
 		return &X{Op: "alloc", Name: v.Comment, V: v, Addr: true}
 	case *ssa.Call:
 		return b.callExpr(v, &v.Call, sub)
@@ -543,4 +553,54 @@ func unwrapV(v ssa.Value) ssa.Value {
 			return v
 		}
 	}
+}
+
+// fieldWritten reports whether some field/element of the cell is stored to separately.
+func fieldWritten(al *ssa.Alloc) bool {
+	refs := al.Referrers()
+	if refs == nil {
+		return false
+	}
+	for _, r := range *refs {
+		switch r := r.(type) {
+		case *ssa.FieldAddr:
+			if fr := r.Referrers(); fr != nil {
+				for _, u := range *fr {
+					if st, ok := u.(*ssa.Store); ok && st.Addr == r {
+						return true
+					}
+				}
+			}
+		case *ssa.IndexAddr:
+			if fr := r.Referrers(); fr != nil {
+				for _, u := range *fr {
+					if st, ok := u.(*ssa.Store); ok && st.Addr == r {
+						return true
+					}
+				}
+			}
+		}
+	}
+	return false
+}
+
+// RetX returns the expression of result i of a return instruction, looking
+// through the result cells go/ssa introduces in functions with defers (the
+// value is stored to the cell in the same block, just before the return).
+func (c *Ctx) RetX(ret *ssa.Return, i int) *X {
+	if i >= len(ret.Results) {
+		return nil
+	}
+	r := ret.Results[i]
+	if u, ok := r.(*ssa.UnOp); ok && u.Op == token.MUL {
+		if al, ok := u.X.(*ssa.Alloc); ok {
+			b := ret.Block()
+			for k := len(b.Instrs) - 1; k >= 0; k-- {
+				if st, ok := b.Instrs[k].(*ssa.Store); ok && st.Addr == al {
+					return c.E(st.Val)
+				}
+			}
+		}
+	}
+	return c.E(r)
 }
